@@ -1760,6 +1760,14 @@ def network_sums_axis_order(mk):
             w.done()
             hx.same(tag + "tensor_network_sum: outer labels", sorted(r.outer_inds()), sorted(out))
             hx.eq(tag + "tensor_network_sum == dense(A) + dense(B)", ref.tn_dense(r, out), dA + dB)
+    # stored exponents on either operand: the sum is of the denoted values (ref.tn_dense includes 10**exponent)
+    for ea, eb in ((1.0, 0.0), (0.0, 3.0), (1.0, -2.0), (2.0, 2.0)):
+        a, b = A.copy(), B.copy()
+        a.exponent, b.exponent = ea, eb
+        w = _Watch(hx, f"[exponents {ea}, {eb}] tensor_network_sum", a, b)
+        r = tc.tensor_network_sum(a, b)
+        w.done()
+        hx.eq(f"[exponents {ea}, {eb}] tensor_network_sum == 10**ea dense(A) + 10**eb dense(B)", ref.tn_dense(r, out), dA * 10 ** ea + dB * 10 ** eb)
     # arbitrary-geometry vectors and MPS: operators + and -
     sites = (0, 1, 2)
 
@@ -1784,6 +1792,14 @@ def network_sums_axis_order(mk):
             w.done()
             hx.eq(tag + "a + b == dense(a) + dense(b)", ref.tn_dense(rp, kout), dX + dY)
             hx.eq(tag + "a - b == dense(a) - dense(b)", ref.tn_dense(rm, kout), dX - dY)
+        for ea, eb in ((1.0, 0.0), (0.0, 3.0), (1.0, -2.0)):
+            x, y = X.copy(), Y.copy()
+            x.exponent, y.exponent = ea, eb
+            w = _Watch(hx, f"[{nm}: exponents {ea}, {eb}] a + b / a - b", x, y)
+            rp, rm = x + y, x - y
+            w.done()
+            hx.eq(f"[{nm}: exponents {ea}, {eb}] a + b == 10**ea dense(a) + 10**eb dense(b)", ref.tn_dense(rp, kout), dX * 10 ** ea + dY * 10 ** eb)
+            hx.eq(f"[{nm}: exponents {ea}, {eb}] a - b == 10**ea dense(a) - 10**eb dense(b)", ref.tn_dense(rm, kout), dX * 10 ** ea - dY * 10 ** eb)
 
 
 # ======================================================================================
